@@ -74,6 +74,14 @@ pub(super) struct VacantEntry<'a> {
 
 pub(super) trait Resolve {
     fn resolve(&mut self, key: Key) -> Ptr<'_>;
+
+    /// Returns the key of the stream this resolver itself points at, if any.
+    ///
+    /// When a `Ptr` is used as the resolver, this is the stream the caller is
+    /// currently operating on (and will keep operating on afterwards).
+    fn own_key(&self) -> Option<Key> {
+        None
+    }
 }
 
 // ===== impl Store =====
@@ -425,6 +433,10 @@ impl<'a> Resolve for Ptr<'a> {
             key,
             store: &mut *self.store,
         }
+    }
+
+    fn own_key(&self) -> Option<Key> {
+        Some(self.key)
     }
 }
 
